@@ -373,6 +373,11 @@ func (ps *Pieces) del(p uint32, force bool) (done bool, complete bool) {
 		ps.mu.Lock()
 	}
 
+	if ps.pieces[p].data == nil {
+		// deleted by somebody else while we were waiting
+		return
+	}
+
 	done = true
 	complete = ps.pieces[p].complete()
 
